@@ -126,4 +126,19 @@ PROPS = {
         "assumptions": ["harness trait implementations follow the trait contracts"],
         "trusted_base": COMMON_TB + ["modelled, not verified: state_machine.rs, request_builder.rs, common.rs (valid)"],
     },
+    "C07": {
+        "run": ["EvalProps"], "functional": False,
+        "n": {"quick": 300, "thorough": 8000},
+        "level_text": "Theorems: (1) the accepted language of X-Retry-After is exactly +?digits < 2^64 giving min(N,86400) s, everything else absent (all byte strings); "
+                      "(2) C07_poll_monitor_accepts_every_model_trace: for every script, configuration and entry point the model's trace is accepted by the executable monitor "
+                      "step7 (interval in force = parse(first header) after every authenticated response of any status/kind, unchanged otherwise; every change announced, "
+                      "written with the new value and committed before anything else; policy and observers always shown the interval in force); (3) restart loads what was stored. "
+                      "Model tied to the code by trace equality on scripted runs; the monitor also runs on every implementation trace.",
+        "level_note": "Proved for the model, unbounded.  Leading '+' accepted (Rust u64::from_str; DESIGN.md section 6).  Model = code sampled.",
+        "diff_meaning": "The poll-interval monitor rejects the implementation's trace (code 2), or the request/protocol-state/policy/storage projection differs from the model's.",
+        "rule": "random scripted environments, 80% of responses carrying X-Retry-After values from 14 classes (digits around 86400/2^32/2^64, signs, spaces, leading zeros, exponent, empty, two headers), "
+                "all status classes and request kinds, CUP on/off with forged responses; distinct = distinct implementation trace; non-trivial = at least one request",
+        "assumptions": ["harness trait implementations follow the trait contracts"],
+        "trusted_base": COMMON_TB + ["modelled, not verified: state_machine.rs do_omaha_request_and_update_context, update_check.rs Context::load/persist"],
+    },
 }
